@@ -117,6 +117,11 @@ func (tm *typesMap) SetFuncName(funcName string, typs ...types.Type) (string, er
 	}
 	tm.funcToTyps[funcName] = typs
 	tm.typss = append(tm.typss, typs)
+	// Function names are package wide, but every plugin has its own typesMap.
+	// The reserved set is shared by all the typesMaps of a package, so recording the name here
+	// stops newName in another plugin's typesMap from minting the same name,
+	// for example equal=eq minting the helper eq_ when sort=eq_ already generates eq_.
+	tm.reserved[funcName] = struct{}{}
 	return funcName, nil
 }
 
